@@ -45,4 +45,15 @@ pub fn run(ctx: &mut Ctx) {
         }
         run_trace(ctx, "session", ndocs, ops, Some("c07.spec_emissions"));
     }
+    // (c) scripted: every kind of unauthenticated or refused frame arrives between two messages of a side, on both
+    // sides, then that side sends again (a refused frame must not move the SEND counter of its recipient)
+    let frames = [Delivery::NoData(0), Delivery::NoData(1), Delivery::NoData(2), Delivery::NoData(3), Delivery::NoData(4), Delivery::Garbage,
+                  Delivery::BitFlip(0, 7), Delivery::Truncate(0, 3), Delivery::Foreign, Delivery::Reflect, Delivery::Replay(0), Delivery::CraftedNotCbor, Delivery::CraftedNotStruct];
+    for f in frames.iter() {
+        let mut ops = vec![TOp::NewRequest(1), TOp::DeliverResp(f.clone()), TOp::NewRequest(2), TOp::DeliverReq(Delivery::Latest)];
+        ops.extend([TOp::Prepare(vec![0], false), TOp::NextPayload, TOp::Submit(true), TOp::Retrieve, TOp::DeliverReq(f.clone())]);
+        ops.extend([TOp::NewRequest(0), TOp::DeliverReq(Delivery::Latest), TOp::Prepare(vec![0], false), TOp::NextPayload, TOp::Submit(true), TOp::Retrieve, TOp::DeliverResp(Delivery::Latest),
+                    TOp::DeliverResp(f.clone()), TOp::NewRequest(1)]);
+        run_trace(ctx, "scripted_refused_frames", 1, ops, Some("c07.spec_emissions"));
+    }
 }
